@@ -365,8 +365,8 @@ pub fn run(args: &Args) -> i32 {
         println!("VIOLATION property=C20 replay={path}");
         return EXIT_VIOLATION;
     }
-    let ss = args.tier.pick(2_500u64, 150_000);
-    let cs = args.tier.pick(4_000u64, 200_000);
+    let ss = args.tier.pick(12_000u64, 500_000);
+    let cs = args.tier.pick(20_000u64, 700_000);
     let mut ev = Evidence::new();
     for p in parallel(args.jobs, ss + cs, Evidence::new, |i, ev| {
         if i < ss {
@@ -384,9 +384,9 @@ pub fn run(args: &Args) -> i32 {
         assumptions: vec!["the decode-level command itself is not part of the record".into()],
         exhaustive: None,
         floors: vec![
-            ("server_executions_compared".into(), args.tier.pick(20_000, 1_000_000)),
-            ("client_executions_compared".into(), args.tier.pick(20_000, 1_000_000)),
-            ("level_changes_injected".into(), args.tier.pick(30_000, 1_500_000)),
+            ("server_executions_compared".into(), args.tier.pick(150_000, 5_000_000)),
+            ("client_executions_compared".into(), args.tier.pick(150_000, 5_000_000)),
+            ("level_changes_injected".into(), args.tier.pick(250_000, 8_000_000)),
         ],
         min_classes: 20,
     };
